@@ -524,8 +524,10 @@ def valid(m, op):
         return not op.get('rr')
     if k == 'rm_link':
         n = m.get(op['ns'], op['path'])
-        if n is None or n.blob == 'cat':
+        if n is None:
             return False
+        if n.kind == 'file' and n.blob == 'cat':
+            return True
         if n.kind == 'file':
             return not (op['ns'] == 'udf' and n.noinode) and hide_ok(m, n)
         return n.kind == 'symlink' and op['ns'] == 'udf'
